@@ -309,8 +309,11 @@ class Switch(Generic[R], GenerativeFunction[R]):
         if Diff.tree_tangent(idx_diff) == UnknownChange:
             weight += score - trace.get_score()
 
-        # TODO: this is totally wrong, fix in future PR.
-        bwd_request: Update = rets[0][3]
+        # The backward request of the branch which was edited: the branches' backward
+        # constraints, switched on the index.
+        bwd_request = Update(
+            ChoiceMap.switch(new_idx, [bwd.constraint for _, _, _, bwd in rets])
+        )
 
         return (
             SwitchTrace(self, primals, subtraces, retval, score),
